@@ -687,8 +687,11 @@ fn explore(sched: &Sched, a: &mut Acc, name: &str, actors: &[Actor], bound: usiz
     // writers to other objects: each object holds its own writer's bytes, whatever the interleaving
     for (t, read) in &x.other_reads {
         let Actor::WriterAt(id, len, bucket, key) = &actors[*t] else { continue };
+        let failed = x.writer_results[*t].contains("Err");
         if read.as_ref().ok() == Some(&content_for(*id, *len)) {
             a.outcome("each object holds its own writer's bytes");
+        } else if failed && matches!(read, Err(c) if c == "NoSuchKey") {
+            a.outcome("a writer reported failure and its object does not exist");
         } else {
             a.outcome("AN OBJECT DOES NOT HOLD ITS OWN WRITER'S BYTES");
             a.fail(&format!("{prop}/schedules/write-to-one-object-changed-or-lost-by-a-concurrent-write-to-another/{name}"), order, sid.clone(), format!("after both writers finished {bucket}/{key} reads {:?} (its writer sent {} bytes; results {:?})", read.as_ref().map(|b| (b.len(), String::from_utf8_lossy(&b[..b.len().min(16)]).into_owned())), len, x.writer_results), ctxv.clone());
@@ -697,6 +700,7 @@ fn explore(sched: &Sched, a: &mut Acc, name: &str, actors: &[Actor], bound: usiz
     let only_others = !actors.iter().any(|ac| matches!(ac, Actor::Writer(..)));
     match &x.final_read {
         Ok(b) if only_others && b == OLD => a.outcome("the untouched object keeps its content"),
+        Ok(b) if !only_others && b == OLD && x.writer_results.iter().enumerate().all(|(t, r)| !matches!(actors[t], Actor::Writer(..)) || r.contains("Err")) => a.outcome("every writer reported failure and the previous content stands"),
         Ok(b) if cand_refs.iter().any(|c| c == b) => a.outcome(&format!("final content = writer {}", cand_refs.iter().position(|c| c == b).unwrap())),
         other => {
             a.outcome("FINAL CONTENT IS NO WRITER'S");
@@ -706,8 +710,10 @@ fn explore(sched: &Sched, a: &mut Acc, name: &str, actors: &[Actor], bound: usiz
     if !x.tmps.is_empty() {
         a.fail(&format!("{prop}/schedules/temporary-file-left-behind"), order, sid.clone(), format!("{:?}", x.tmps), ctxv.clone());
     }
+    // a writer that reports failure under concurrency is not forbidden by the statement (its write then simply did not take
+    // effect); it is recorded. What a *failed* writer must not do is judged through the contents above and below.
     if x.writer_results.iter().any(|r| r.contains("Err")) {
-        a.fail(&format!("{prop}/schedules/concurrent-writer-fails/{name}"), order, sid.clone(), format!("writer results {:?}", x.writer_results), ctxv.clone());
+        a.count(&format!("executions in which a concurrent writer reported failure ({name})"), 1);
     }
     if let Some(seen) = &x.reader_saw {
         let versions: Vec<&[u8]> = std::iter::once(OLD).chain(cand_refs.iter().copied()).collect();
